@@ -100,8 +100,15 @@ class Phase:
                     self.records.append(rec)
                     continue
                 conds = {}
+                same = {}
                 for key, text in op["batch"]:
-                    conds[int(key)] = self._query_cond(text)
+                    if op.get("alias"):
+                        # the SAME Conditional object submitted under several keys
+                        if text not in same:
+                            same[text] = self._query_cond(text)
+                        conds[int(key)] = same[text]
+                    else:
+                        conds[int(key)] = self._query_cond(text)
                 q = Queries(conds)
                 kw = {}
                 if not self.zero:
@@ -746,7 +753,19 @@ def generate(prop, verif_seed, idx, tier="quick", cls=None, recover=False):
     for c in range(n_calls):
         mgr = g.randrange(n_mgr)
         n = g.randint(1, min(6, len(pool) + 2))
-        if cls == "dup":
+        big = False
+        if cls == "par" and prop == "C13" and g.random() < 0.04:
+            # a batch larger than any plausible worker-pool / wave size
+            big = True
+            extra_q = []
+            while len(extra_q) < 40:
+                t = W.cond_text(W.gen_conditional(g, sig, "literal" if len(sig) >= 3 else "mixed"))
+                if t not in extra_q:
+                    extra_q.append(t)
+                if len(extra_q) < 40 and g.random() < 0.02:
+                    break
+            texts = extra_q[: g.randint(33, 40)]
+        elif cls == "dup":
             texts = [g.choice(pool) for _ in range(n)]
             if n >= 2:
                 texts[-1] = texts[0]
@@ -756,8 +775,12 @@ def generate(prop, verif_seed, idx, tier="quick", cls=None, recover=False):
             texts[g.randrange(len(texts))] = pool[0]
         keys = _pick_keys(g, len(texts))
         op = {"op": "inference", "mgr": mgr, "batch": [[k, t] for k, t in zip(keys, texts)], "multi": False}
+        if cls == "dup" and g.random() < 0.4:
+            op["alias"] = True
+        if big:
+            op["multi"] = True
         if cls in ("par", "stall"):
-            op["multi"] = g.random() < 0.75
+            op["multi"] = big or g.random() < 0.75
         elif cls == "budget":
             op["multi"] = g.random() < 0.25
             op["inf"] = "auto"
